@@ -1,3 +1,97 @@
+(* C04: every spawned task runs exactly once with its argument - obligations (model: Kernel/Model.v) *)
 From Coq Require Import List Bool Arith NArith.
-From QV Require Import Kernel.GenSpawnTable Kernel.Placement Kernel.Model.
+From QV Require Import Kernel.GenSpawnTable Kernel.Placement Kernel.Model Kernel.ProofsKernel.
 Import ListNotations.
+
+Theorem C04_loc_unique : forall ns nw ac tr st,
+  run (init ns nw ac) tr = Some st ->
+  NoDup (map fst st.(places)) /\
+  (forall t, t < st.(next) -> exists l, In (t, l) st.(places) /\ forall l', In (t, l') st.(places) -> l' = l).
+Proof. exact loc_unique. Qed.
+Print Assumptions C04_loc_unique.
+
+Theorem C04_queued_at_most_once : forall ns nw ac tr st t s b s' b',
+  run (init ns nw ac) tr = Some st ->
+  In (t, InQueue s b) st.(places) -> In (t, InQueue s' b') st.(places) -> s = s' /\ b = b'.
+Proof. exact queued_at_most_once. Qed.
+Print Assumptions C04_queued_at_most_once.
+
+Theorem C04_freed_only_from_terminated_on_worker : forall st l st' t,
+  step st l = Some st' -> In (t, Freed) st'.(places) -> ~ In (t, Freed) st.(places) ->
+  exists s w x, l = LFree s w t /\ place_of t st.(places) = Some (OnWorker s w) /\
+                get_task t st.(tasks) = Some x /\ x.(t_state) = TERMINATED.
+Proof. exact freed_only_from_terminated_on_worker. Qed.
+Print Assumptions C04_freed_only_from_terminated_on_worker.
+
+Theorem C04_nothing_refers_to_freed : forall ns nw ac tr1 tr2 st st' t,
+  run (init ns nw ac) tr1 = Some st -> In (t, Freed) st.(places) -> run st tr2 = Some st' ->
+  forall l, In (t, l) st'.(places) -> l = Freed.
+Proof. exact nothing_refers_to_freed. Qed.
+Print Assumptions C04_nothing_refers_to_freed.
+
+Theorem C04_runs_once : forall ns nw ac tr st t x,
+  run (init ns nw ac) tr = Some st -> get_task t st.(tasks) = Some x ->
+  x.(t_started) <= 1 /\ (x.(t_state) = TERMINATED -> x.(t_started) = 1) /\
+  (x.(t_started) = 0 <-> (x.(t_state) = NEW \/ x.(t_state) = NASCENT)).
+Proof. exact runs_once. Qed.
+Print Assumptions C04_runs_once.
+
+Theorem C04_started_counts_first_exec : forall st l st' t x x',
+  step st l = Some st' -> get_task t st.(tasks) = Some x -> get_task t st'.(tasks) = Some x' -> t < st.(next) ->
+  x'.(t_started) = x.(t_started) \/
+  (exists s w got, l = LExec s w t got /\ x.(t_state) = NEW /\ x'.(t_state) = RUNNING /\ x'.(t_started) = S x.(t_started)).
+Proof. exact started_moves_only_at_first_exec. Qed.
+Print Assumptions C04_started_counts_first_exec.
+
+Theorem C04_arg_semantics : forall st caller row shep_param asize src pre st1 tr st2,
+  step st (LSpawn caller row shep_param asize src pre) = Some st1 -> run st1 tr = Some st2 ->
+  exists x, get_task st.(next) st2.(tasks) = Some x /\
+            x.(t_arg) = (if row.(r_copy) && negb (N.eqb asize 0)
+                         then Copy (mem_get src st.(mem)) (N.leb asize st.(argcopy))
+                         else Ptr src).
+Proof. exact arg_semantics. Qed.
+Print Assumptions C04_arg_semantics.
+
+Theorem C04_arg_copy_immune_to_scribble : forall st caller row shep_param asize src pre st1 junk tr st2,
+  row.(r_copy) = true -> asize <> 0%N ->
+  step st (LSpawn caller row shep_param asize src pre) = Some st1 -> run st1 (LStore src junk :: tr) = Some st2 ->
+  exists x, get_task st.(next) st2.(tasks) = Some x /\ x.(t_arg) = Copy (mem_get src st.(mem)) (N.leb asize st.(argcopy)).
+Proof. exact arg_copy_immune_to_scribble. Qed.
+Print Assumptions C04_arg_copy_immune_to_scribble.
+
+Theorem C04_exec_gets_spawn_argument : forall st s w t g st' x,
+  step st (LExec s w t (Some g)) = Some st' -> get_task t st.(tasks) = Some x -> argv_eqb g x.(t_arg) = true.
+Proof. exact exec_gets_spawn_argument. Qed.
+Print Assumptions C04_exec_gets_spawn_argument.
+
+(* the generated spawn table (read off the working tree) has the shape the variants' names promise: copyargs variants
+   forward the size, _to variants forward the target, every variant forwards its argument; finite table, by computation *)
+Definition row_of (v : nat) : option spawn_row :=
+  option_map snd (find (fun p => fst p =? v) spawn_table).
+Definition expect (v : nat) (copy to pre simple : bool) (ret team : nat) : bool :=
+  match row_of v with
+  | Some r => r.(r_arg) && Bool.eqb r.(r_copy) copy && Bool.eqb r.(r_to) to && Bool.eqb r.(r_precond) pre &&
+              Bool.eqb r.(r_simple) simple && (r.(r_ret) =? ret) && (r.(r_team) =? team)
+  | None => false
+  end.
+Theorem C04_spawn_table_sound :
+  forallb (fun b => b)
+    [ expect 0 false false false false 0 0; expect 1 false true false false 0 0; expect 2 true false false false 0 0;
+      expect 3 true true false false 0 0; expect 4 false false false false 1 0; expect 5 false true false false 1 0;
+      expect 6 true false false false 1 0; expect 7 true false false true 1 0; expect 8 false false true false 0 0;
+      expect 9 false true true false 0 0; expect 10 false false true true 0 0; expect 11 true false true false 1 0;
+      expect 12 false false false false 0 1; expect 13 false false false false 0 2; expect 14 false true false false 0 1;
+      expect 15 false false false false 1 1; expect 16 false false false false 1 2; expect 17 true false false false 0 1;
+      expect 18 true false false false 0 2; expect 19 true true false false 1 0; expect 20 false false false false 0 0 ] = true.
+Proof. vm_compute. reflexivity. Qed.
+Print Assumptions C04_spawn_table_sound.
+
+(* non-vacuity: a reachable state in which a copied argument has been scribbled over, the task has run, terminated and
+   been freed *)
+Example C04_example :
+  let row := mkRow true true false false false 0 0 false in
+  exists st, run (init 2 2 1024) [LStore 7 [1; 2; 3]%N; LSpawn (Some (0, 0)) row None 3 7 false; LStore 7 [9; 9; 9]%N;
+                                  LTake 1 0 0 1; LExec 1 0 1 (Some (Copy [1; 2; 3]%N true)); LYield 1; LPostYield 1 0 1;
+                                  LTake 1 1 1 1; LExec 1 1 1 None; LEnd 1; LFree 1 1 1] = Some st
+             /\ In (1, Freed) st.(places) /\ finished st = true.
+Proof. eexists. vm_compute. split; [reflexivity|]. split; [left; reflexivity|reflexivity]. Qed.
